@@ -225,6 +225,8 @@ class ReconRun:
     def finish(self) -> dict:
         self.settle()
         self.unhandled = [repr(c.get("exception")) for c in self.loop.unhandled]
+        if self.loop.harness_errors:
+            raise RuntimeError("harness: exception in the harness's own callback code: " + "; ".join(self.loop.harness_errors[:3]))
         self.zmod.AsyncZeroconf = self._orig_azc
         self.w.close()
         return {"rows": self.rows, "skipped": self.skipped, "attempts": self.attempt_times, "zc_closed": [z.closed for z in FakeAsyncZeroconf.instances]}
